@@ -74,6 +74,9 @@ def run(ctx: Ctx):
                         'well-formedness: names are identifiers (C15 covers everything else)']
     for f in ('DznJsonAst.process', 'DznJsonAst.parse_element', 'ElementHelper.*', 'get_class_value', 'parse_* (33)'):
         ctx.functions[f'dznpy.json_ast.{f}'] = 'executed symbolically on every document of the corpus'
+    # unbounded part: the element parsers for well-formed elements with any number of list entries
+    from props import parse_unbounded
+    parse_unbounded.run(ctx)
     jobs = list(D.documents().items())
     status, msg = parallel_jobs(ctx, jobs, lambda sub, j: check_doc(sub, j[0], j[1]), lambda j: j[0])
     if status == 'crash':
@@ -89,6 +92,10 @@ def make_replay(ctx, o):
 
 
 def native_search(ctx, o):
+    import re
+    m = re.match(r'[^:]*:json_ast\.(parse_[a-z_]+)', o.id)
+    if m:
+        return {'script': 'native/replay_parse.py', 'input': {'function': m.group(1)}}
     return {'script': 'native/replay_parser.py', 'input': {'search': [
         {'doc': d, 'names': n, 'property': 'C05'} for d in D.documents() for n in ({}, {'T': 'T', 'St': 'St'},
                                                                                   {'A': 'B', 'B': 'A', 'Z': 'A'})]}}
